@@ -261,10 +261,24 @@ def resolve(inp):
     return cg, aa, 'graph%s%s+%s' % ('(reversed insertion)' if inp['via'] == 'graph-rev' else '', sorted(B.edges(data='order')), fragstr)
 
 
+_CURATED = None
+
+
+def curated(mol):
+    """hand-written molecules (feature / slice tables): valid by construction, so a rejected or different uncut
+    resolution is a violation there and not a reason to skip"""
+    global _CURATED
+    if _CURATED is None:
+        _CURATED = {json.dumps(json.loads(json.dumps(m)), sort_keys=True) for m in list(M.FEATURE.values()) + list(M.SLICE.values())}
+    return json.dumps(json.loads(json.dumps(mol)), sort_keys=True) in _CURATED
+
+
 def evaluate(inp):
     mol = inp['mol']
     ref = reference(mol)
     if ref is None:
+        if curated(mol):
+            return bad('uncut-molecule-rejected', {'mol': mol}, {'string': '{[#M]}.{#M=%s}' % M.uncut_smiles(mol)})
         return Verdict(skip=True, outcome='uncut-molecule-not-resolvable')
     ncut = M.n_cuts(mol, [tuple(c) for c in inp['comps']])
     nontrivial = ncut > 0
@@ -273,6 +287,8 @@ def evaluate(inp):
     # the renderer / model itself is validated on the uncut molecule
     rcls = M.compare_with_model(mol, ref, strict_orders=strict)
     if rcls is not None:
+        if curated(mol):
+            return bad('uncut-molecule:model:' + rcls, {'mol': mol}, {'string': '{[#M]}.{#M=%s}' % M.uncut_smiles(mol)})
         return Verdict(skip=True, outcome='uncut-molecule-differs-from-model:' + rcls)
     try:
         cg, aa, text = resolve(inp)
